@@ -383,6 +383,32 @@ def rule_frame_identity(ck):
                     e = expr_str(expr_of(f, pl[0], depth=8), 8)
                     if "cfa" in e:
                         cmps.append(None)
+            # one level of local helpers: a Debugger method called in the loop that itself takes the frame address
+            # and compares it (e.g. `in_deeper_frame(start_cfa)`) stands for both
+            helper_cmp = []
+            for x in f.calls():
+                if x.bb in loop and x.name.startswith("debugger::") and x.name != DBG + "::continue_execution":
+                    h = prog.fns.get(x.name)
+                    if h is None or h is f:
+                        continue
+                    hc = [y for y in h.calls() if re.search(r"PartialOrd::(lt|le|gt|ge)$", y.name) and "RelocatedAddress" in " ".join(str(g) for g in (y.gargs or []))]
+                    if cfa_calls(h) and hc:
+                        ck.saw(h)
+                        post = post or [x]
+                        helper_cmp.extend((h, y) for y in hc)
+            strict = []
+            for (hf, y) in [(f, x) for x in cmps if x is not None] + helper_cmp:
+                a0 = expr_str(expr_of(hf, y.args[0], depth=8), 8)
+                a1 = expr_str(expr_of(hf, y.args[1], depth=8), 8)
+                cur0 = "current_cfa" in a0 or "get_cfa" in a0
+                cur1 = "current_cfa" in a1 or "get_cfa" in a1
+                op = y.name.rsplit("::", 1)[-1]
+                if cur1 and not cur0:
+                    op = {"lt": "gt", "le": "ge", "gt": "lt", "ge": "le"}[op]
+                # a test phrased as "stop if above" is the negation of "continue if at or below"
+                op = {"gt": "le", "ge": "lt"}.get(op, op)
+                strict.append(op)
+            cmps = cmps or [y for _, y in helper_cmp]
             ok = in_loop and bool(pre) and bool(post) and bool(cmps)
             why = []
             if not in_loop:
@@ -398,6 +424,9 @@ def rule_frame_identity(ck):
                 pre = [x for x in cfa_calls(outer)]
                 ok = in_loop and bool(pre) and bool(post) and bool(cmps)
                 why = [w for w in why if not w.startswith("no frame address taken before")] + ([] if pre else ["no frame address taken before resuming"])
+            want = "le" if nm == "step_out_frame" else "lt"
+            if ok and strict:
+                ck.ob("mpt.step_frame_identity", f"{key}/continues-while-current-{'<=' if want == 'le' else '<'}-start", all(o == want for o in strict), f"continues again while current frame address {strict} start", f.loc(c.bb), what=("finish accepts a stop in the very frame it is leaving (a recursive callee returning into it through the same call site)" if nm == "step_out_frame" else "next ignores a stop in its own frame, or accepts one in a deeper frame"))
             ck.ob("mpt.step_frame_identity", f"{key}/frame-compared-before-accepting-the-stop", ok, "; ".join(why) + (": with recursion the temporary breakpoint is reached first by another activation" if why else ""), f.loc(c.bb), what=f"{nm}: a temporary breakpoint hit in a deeper activation (recursion) ends the step")
     # the model instance
     si = prog.method(DBG, "step_in")
